@@ -721,7 +721,7 @@ func (a *act) autoInvariants(li *loopInfo, st *State) []autoInv {
 		}
 		sort.Strings(hs)
 		for _, h := range hs {
-			if fr.wild[h] || strings.HasPrefix(h, "G_") {
+			if fr.wild[h] || (strings.HasPrefix(h, "G_") && !a.e.moduleGhost(strings.TrimPrefix(h, "G_"))) {
 				continue
 			}
 			srt, ok := c.heapSorts[h]
